@@ -18,7 +18,7 @@
    (the detection is not atomic: stat . probe . digest . record).  For such a request "the bytes at
    the path" (e_cur) are those it was served under, i.e. after the window. *)
 From Coq Require Import List NArith Bool.
-From Sccache Require Import Model.CompilerCache Proofs.CompilerCache.
+From Sccache Require Import Model.CompilerCache Proofs.CompilerCache Model.RustToolchain Proofs.RustToolchain.
 Import ListNotations.
 Local Open Scope N_scope.
 
@@ -152,6 +152,44 @@ Theorem C12_asfound_is_fixed_without_windows :
     final detect H VAsFound s ops = final detect H VFixed s ops.
 Proof. intros detect H s ops W. exact (windowless_same detect H ops s W). Qed.
 Print Assumptions C12_asfound_is_fixed_without_windows.
+
+(* rustc behind a rustup proxy (Model/RustToolchain.v).  The executable a proxy path leads to changes
+   when rustup's selection changes (rustup default / override / rust-toolchain), without any file at
+   the path changing.  Because the registered proxy is asked again for EVERY request, each request —
+   through the proxy or straight through a toolchain's rustc — is resolved to the toolchain its path
+   leads to now, keyed on that build's identity, and handed what that build made (premise: at one
+   toolchain's rustc the same mtime means the same build; ident and H collision-free). *)
+Theorem C12_proxy_follows_selection :
+  forall (ident : N -> N) (H : N -> N -> N),
+    (forall a b, ident a = ident b -> a = b) ->
+    (forall i1 s1 i2 s2, H i1 s1 = H i2 s2 -> i1 = i2 /\ s1 = s2) ->
+    forall ops, rwf (rexec ident H false rstart ops) = true ->
+    forall e, In e (rexec ident H false rstart ops) -> rright ident e = true.
+Proof. intros ident H I1 I2 ops W e I. exact (proxy_follows_selection ident H I1 I2 ops W e I). Qed.
+Print Assumptions C12_proxy_follows_selection.
+
+(* ... and it is refuted for a proxy that remembers rustup's first answer (memo = true): after
+   `rustup default B` requests are still resolved to, keyed on and compiled by toolchain A. *)
+Theorem C12_proxy_memo_refuted :
+  rwf (rexec ident_w H_w2 true rstart ops_switch) = true /\
+  existsb (fun e => negb (rright ident_w e)) (rexec ident_w H_w2 true rstart ops_switch) = true /\
+  rwf (rexec ident_w H_w2 false rstart ops_switch) = true /\
+  map v_out (rexec ident_w H_w2 false rstart ops_switch) = [RMiss 1; RHit 1; RMiss 2; RMiss 2; RMiss 1].
+Proof. exact proxy_memo_refuted. Qed.
+Print Assumptions C12_proxy_memo_refuted.
+
+(* The identity of a rustc is the digests of what <sysroot>/lib/*.so LOADS — regular files and links to
+   regular files alike: two sysroots whose libraries differ in content have different identities, however
+   they are stored.  Hashing regular files only gives every link-farm sysroot the same (empty) identity. *)
+Theorem C12_rust_identity_sees_through_links :
+  (forall (dg : N -> N), (forall a b, dg a = dg b -> a = b) ->
+     forall es1 es2, lib_contents es1 <> lib_contents es2 ->
+                     rust_identity dg true es1 <> rust_identity dg true es2) /\
+  (lib_contents (sysroot_links 1) <> lib_contents (sysroot_links 2) /\
+   rust_identity ident_w false (sysroot_links 1) = rust_identity ident_w false (sysroot_links 2) /\
+   rust_identity ident_w true (sysroot_links 1) <> rust_identity ident_w true (sysroot_links 2)).
+Proof. exact (conj rust_identity_sees_through_links files_only_refuted). Qed.
+Print Assumptions C12_rust_identity_sees_through_links.
 
 (* Non-vacuity: a history with a swap, a swap back, links, a non-compiler and a detection window
    during which the binary is replaced satisfies both premises and is served as the theorems say;
